@@ -47,7 +47,7 @@ Definition contextual_enter (vars : val) (l : store) : option (store * list val)
   let previous := tl_get k_contextual v_empty_dict l in
   match previous, vars with
   | VD p, VD vs => Some (tl_set k_contextual (VD (contextual_merge p vs)) l, [previous])
-  | _, _ => Some (l, [])
+  | _, _ => None      (* dict(previous_values) / **variables raise TypeError before anything is changed *)
   end.
 Definition contextual_exit (saved : list val) (l : store) : store :=
   match saved with [previous] => tl_set k_contextual previous l | _ => l end.
@@ -64,7 +64,7 @@ Fixpoint filter_map {A B} (f : A -> option B) (l : list A) : list B :=
 Definition detour_enter (maps : val) (l : store) : option (store * list val) :=
   match tl_peek k_detour v_empty_dict l, maps with
   | VD cur, VD ms => Some (tl_push k_detour (VD (dict_update cur (filter_map (detour_resolve cur) ms))) l, [])
-  | _, _ => Some (l, [])
+  | _, _ => None      (* detour() raises TypeError on an invalid mapping before enter_scope *)
   end.
 Definition detour_exit (l : store) : store := tl_pop k_detour l.
 
@@ -199,12 +199,14 @@ Definition escapes (r : state * list val * bool) : bool := snd r.
 (* --- observational equality of stores ------------------------------------------------------------
    thread_local_pop leaves an empty list behind, contextual_scope leaves an empty dict, a process-wide
    variable holding None is the same as one never assigned.  No getter and no manager can tell these
-   from "key absent" (Proofs/ScopesCongruence.v); flag / permission / timing / dynamic-evaluate keys are
-   compared exactly. *)
+   from "key absent" (Proofs/ScopesCongruence.v).  The permission and timing keys are only ever read with
+   default None, so holding None is the same as being absent.  Flag and dynamic-evaluate keys are compared
+   exactly (their scopes test for the presence of the key). *)
 Inductive kclass := KExact | KStack | KDict | KNone.
 Definition lclass (k : tlkey) : kclass :=
   if existsb (Nat.eqb k) [k_str_format; k_repr_format; k_view_options; k_context; k_detour] then KStack
   else if Nat.eqb k k_contextual then KDict
+  else if existsb (Nat.eqb k) [k_permission; k_timing] then KNone
   else KExact.
 Definition gclass (k : tlkey) : kclass :=
   if Nat.eqb k g_dynamic_evaluate then KNone
